@@ -252,7 +252,7 @@ def obligations(tier, seed):
     vmax = 2 if tier == "quick" else 3
     for ki, k in enumerate(KW):
         obs.append(Ob(id="C08.5-keyword[%s]" % k, body="harness.C08:body_keyword", sig="kw: int, v: str, root: bool, pathfirst: bool",
-                      pre=["kw == %d" % ki, "len(v) <= %d" % (vmax - 1 if k == "Path=" else vmax)] + (["all(c in '0123456789-+x' for c in v)"] if k in ("Numb=", "Port=") else ["all(c in './a~' + chr(92) for c in v)"] if k == "Path=" else []), timeout=240 if tier == "quick" else 900,
+                      pre=["kw == %d" % ki, "len(v) <= %d" % vmax] + (["all(c in '0123456789-+x' for c in v)"] if k in ("Numb=", "Port=") else ["all(c in './a~' + chr(92) for c in v)"] if k == "Path=" else []), timeout=240 if tier == "quick" else 900,
                       desc="a block `%s<symbolic value>` + a concrete companion line parses to the documented entry (reference reader), in the root and in a sub-directory, either line order" % k,
                       bounds="|v| <= %d (all characters)" % vmax, functions=["handlers.UMN.UMNDirHandler.getLinkItem/processLinkFile", "LinkEntry"]))
     for pi in range(len(PATHS)):
